@@ -58,7 +58,22 @@ fn build(r: &mut Rng, autoescape: bool, ext_on: &str, ext_off: &str) -> Prog {
     let mut passthrough = true;
     let mut route: Vec<&'static str> = vec![];
     // source
-    let mut cur = match r.below(6) {
+    let mut pre = String::new();
+    let mut cur = match r.below(8) {
+        6 | 7 => {
+            // the data is a map *key*: reached through a key/value loop or the keys filter
+            let mut m = Map::new();
+            m.insert(src_val.clone().into(), Value::from("z"));
+            ctx.insert_value("hm", Value::from(m));
+            if r.bool() {
+                pre += "{% for kk, yy in hm %}{% set_global k0 = kk %}{% endfor %}";
+                route.push("ctx-map-key-loop");
+            } else {
+                pre += "{% set k0 = hm | keys | first %}";
+                route.push("ctx-map-key-filter");
+            }
+            "k0".to_string()
+        }
         0 | 3 => {
             ctx.insert("v", &src_val);
             route.push("ctx-string");
@@ -90,7 +105,6 @@ fn build(r: &mut Rng, autoescape: bool, ext_on: &str, ext_off: &str) -> Prog {
             format!("\"{}\"", src_val.replace('\\', "").replace('"', "'"))
         }
     };
-    let mut pre = String::new();
     let mut nvar = 0;
     let mut extra_tpls = vec![];
     let mut comps = String::new();
@@ -100,7 +114,57 @@ fn build(r: &mut Rng, autoescape: bool, ext_on: &str, ext_off: &str) -> Prog {
     for _ in 0..(1 + r.below(6)) {
         nvar += 1;
         let x = format!("x{nvar}");
-        match r.below(24) {
+        match r.below(32) {
+            24 => {
+                // every built-in that returns text built from its input: the result is a new, normal string
+                // (`reverse` and cutting filters are left out: they would reorder the marks an earlier capture left)
+                let f = *r.pick(&["lower", "capitalize", "title", "trim", "trim_start", "trim_end", "truncate(length=9999)", "indent", "str", "newlines_to_br", "trim(pat=\"zz\")", "truncate(length=9999, end=\"\")", "indent(first=true)", "replace(from=\"\", to=\"\")"]);
+                pre += &format!("{{% set {x} = {cur} | {f} %}}");
+                route.push("filter-text-builtin");
+                rebuild = true;
+                cur = x;
+            }
+            25 => {
+                let f = *r.pick(&["last", "nth(n=0)", "sort | first", "unique | first", "reverse | first", "sort | last"]);
+                pre += &format!("{{% set {x} = [{cur}] | {f} %}}");
+                route.push("filter-array-builtin");
+                cur = x;
+            }
+            26 => {
+                match r.below(3) {
+                    0 => pre += &format!("{{% set {x} = {{\"k\": {cur} }} | get(key=\"k\") %}}"),
+                    1 => pre += &format!("{{% set {x} = {{\"k\": {cur} }} | values | first %}}"),
+                    _ => pre += &format!("{{% set {x}p = {{\"k\": {cur} }} | pairs | first %}}{{% set {x} = {x}p[1] %}}"),
+                }
+                route.push("filter-map-builtin");
+                cur = x;
+            }
+            27 => {
+                pre += &format!("{{% for y{nvar} in [{cur}] %}}{{% set_global {x} = y{nvar} %}}{{% endfor %}}");
+                route.push("loop-variable");
+                cur = x;
+            }
+            28 => {
+                pre += &format!("{{% for k{nvar}, y{nvar} in {{\"k\": {cur} }} %}}{{% set_global {x} = y{nvar} %}}{{% endfor %}}");
+                route.push("key-value-loop");
+                cur = x;
+            }
+            29 => {
+                pre += &format!("{{% set {x} = {cur} | split(pat=\"zzz\") | first %}}");
+                route.push("split-first");
+                rebuild = true;
+                cur = x;
+            }
+            30 => {
+                pre += &format!("{{% set {x} = [y{nvar} for y{nvar} in [{cur}]] | first %}}");
+                route.push("comprehension");
+                cur = x;
+            }
+            31 => {
+                pre += &format!("{{% set {x}a = [{cur}] %}}{{% set {x} = {x}a[-1] %}}");
+                route.push("negative-index");
+                cur = x;
+            }
             19 => {
                 // engine-escaped (safe) text concatenated with data: the result is a new, normal string
                 pre += &format!("{{% set s{nvar} %}}k{{% endset %}}{{% set {x} = s{nvar} ~ {cur} %}}");
